@@ -466,7 +466,12 @@ func (eq *eq) Execute(searcher index.GetSearcher, seriesID common.SeriesID, tr *
 }
 
 func (eq *eq) ShouldSkip(tagFamilyFilters index.FilterOp) (bool, error) {
-	return !tagFamilyFilters.Eq(eq.Key.Tags[0], eq.Expr.String()), nil
+	// The per-block filter holds the stored encoding of the tag values (8 bytes for
+	// an int tag), not their textual form.
+	if bb := eq.Expr.Bytes(); len(bb) == 1 {
+		return !tagFamilyFilters.Eq(eq.Key.Tags[0], convert.BytesToString(bb[0])), nil
+	}
+	return false, nil
 }
 
 func (eq *eq) MarshalJSON() ([]byte, error) {
